@@ -35,6 +35,14 @@ INFO = {
  'C28-4': ('C28', 'BTree::mark_reachable_pages no longer queues the right child of every separator cell (only right sibling and leftmost child)', 'a B-tree with an internal page below the root (three levels): non-leftmost internal pages are dropped by the vacuum'),
  'C28-5': ('C28', 'node-table range in vacuum::mark_reachable_pages becomes 0..=len/512', 'a node count that is a non-zero multiple of 512: one page past the table is marked and the copy fails with PageNotAllocated'),
  'C28-6': ('C28', 'write_vacuum_copy copies runs of consecutive pages in chunks of 128 but computes the file offset once per run', 'more than 128 live pages with consecutive ids: pages beyond the 128th of a run come back as zero pages'),
+ 'C17-6': ('C17', 'replay_committed_from_path: the BeginTx arm no longer clears `pending` (same idea as C17-1, written independently in round 3)', 'a log that ends inside a transaction after at least one complete op record, then a new commit and a second reopen: the cut ops are replayed as part of the new transaction'),
+ 'C17-7': ('C17', 'Wal::append assembles the record in one buffer and no longer cuts the tail with set_len', 'a checksum flip in a transaction that is not the last one, then a new commit of the same byte length and a second reopen: the reader runs on into the old records and resurrects discarded transactions'),
+ 'C18-6': ('C18', 'ensure_allocated returns early (no meta/bitmap flush) for any page below next_page_id; allocate_page no longer bumps next_page_id itself', 'a freed page handed out again as the last bitmap change before close, then reopen: the page reads as free and gets a second owner'),
+ 'C18-7': ('C18', 'csr::write_blob_pages allocates only the first page of an array and takes previous + 1 for the rest (ensure_allocated)', 'the first page falls into a hole that is followed by a page of another structure and the array needs more than one page: the neighbour is overwritten'),
+ 'C25-7': ('C25', 'map arm of decode_recursive works on &bytes[5..] with pos from 0 but still returns pos as the bytes consumed (5 too few)', 'a map nested in a list or map and not the last thing in its parent: [{}, 1] decodes to [{}, {}]'),
+ 'C25-8': ('C25', 'ManifestSwitch arm of decode_body computes 12 + count * 16 in u32 before widening', 'a crafted type-9 record with a valid CRC and a count >= 2^28: multiply overflow panic (debug) or wrap-around, 4 GiB reservation and out-of-bounds slice (release)'),
+ 'C27-5': ('C27', 'float zero normalisation becomes f.abs() < f64::MIN_POSITIVE', 'subnormal floats: every subnormal gets the key of 0.0, order and equality lost'),
+ 'C27-6': ('C27', 'encode_index_key appends the node id with to_le_bytes', 'two entries of the same index and value with a node id >= 256: entries of one value are no longer ordered by node id (value order, equality and prefix-freedom - the stated property - still hold; kept because the composite key format is now under contract)'),
  'C18-1': ('C18', 'Pager keeps an in-memory free list that allocate_page pops before scanning the bitmap; ensure_allocated never removes from it', 'a page is freed, the node table (length a multiple of 512) grows in place into it, then another structure allocates: allocate_page returns an allocated page'),
  'C18-2': ('C18', 'make_room_for_next_record updates self.i2e_start itself and returns (); the caller keeps writing at the start page it read before the call (two cooperating sites)', 'a relocation of the node table (length a non-zero multiple of 512 and the next page taken): record 512 is written into the neighbouring structure\'s page'),
  'C18-3': ('C18', 'BlobStore::write_direct lays the chain out front to back at first, first+1, ... instead of at the pages it allocated', 'a blob longer than one page whose first page is a hole with an allocated right-hand neighbour'),
